@@ -78,6 +78,11 @@ pub fn json_stringify(
     // Third argument is space/indent
     let indent = args.get(2).cloned().unwrap_or(JsValue::Undefined);
 
+    // undefined, functions and symbols have no JSON text: the result is undefined
+    if matches!(value, JsValue::Undefined | JsValue::Symbol(_)) || value.is_callable() {
+        return Ok(Guarded::unguarded(JsValue::Undefined));
+    }
+
     // Track visited objects for circular reference detection
     let mut visited = FxHashSet::default();
     let json = js_value_to_json_with_visited(&value, &mut visited)?;
